@@ -92,13 +92,13 @@ GrammarAgree ==
 \* stack depth = opened - closed containers (no structural token occurs inside a string in these behaviours)
 Balanced == Len(st.stack) = Count(hist, {"LBRACK", "LBRACE"}) - Count(hist, {"RBRACK", "RBRACE"})
 
-\* every live string is a viable prefix: its completion is accepted; a killed string stays dead (Step is the
-\* identity on dead states by its first clause; checked here for the tokens a lenient parser would resynchronise on)
-CompletionOK ==
-  LET fin == Run(st, [i \in 1..Len(Completion(st)) |-> Canon(Completion(st)[i])]) IN
-  /\ Accepting(fin)
-  /\ \A c \in Kills : \A d \in {"RBRACK", "RBRACE", "QUOTE", "COMMA", "SP"} :
-        Step(Step(st, Canon(c)), Canon(d)).mode = "dead"
+\* every live string is a viable prefix: its completion is accepted
+CompletionOK == Accepting(Run(st, [i \in 1..Len(Completion(st)) |-> Canon(Completion(st)[i])]))
+\* a killed string stays dead (Step is the identity on dead states by its first clause; checked here for the
+\* tokens a lenient parser would resynchronise on)
+DeadStaysDead ==
+  Len(hist) < MaxLen =>
+    \A c \in Kills : \A d \in {"RBRACK", "RBRACE", "QUOTE", "COMMA"} : Step(Step(st, Canon(c)), Canon(d)).mode = "dead"
 
 \* accepted values are well formed: object keys distinct, indices first and ascending
 RECURSIVE WellFormed(_)
